@@ -586,3 +586,188 @@ func ruleSyncRedirect(c *Ctx, r *Rep, tier string) {
 		})
 	}
 }
+
+// ---- ATOMIC-COMPOSE ------------------------------------------------------------
+//
+// C14's last clause names Free among the operations that take effect atomically
+// when several goroutines use one cache. Free is a function of the package, not
+// a method: whatever it does to the cache it does through the Cache interface,
+// and every method of the provided caches is a critical section of its own
+// (LOCK-5). Two method calls on the shared cache on one path are therefore two
+// operations, and another goroutine's Get or Put can fall between them (the
+// unchanged tree read Cap()−Len(), then called Drop: a Get in between made Free
+// evict a block that no order of the two operations evicts).
+//
+// Decided for every function of bgzf/cache, outside the cache types, that has a
+// parameter of a cache interface type:
+//   – on no path are there two dynamic calls on that parameter, except on paths
+//     that are only taken by foreign implementations: the not-ok edge of an
+//     assertion of the parameter to an interface that every cache type of the
+//     package implements;
+//   – the methods such an assertion dispatches to are single critical sections
+//     (one acquisition of the receiver's mutex, not in a loop, nothing of the
+//     receiver touched after an explicit release).
+func ruleAtomicCompose(c *Ctx, r *Rep, tier string) {
+	rule := "ATOMIC-COMPOSE"
+	allImpls := discoverCaches(c, hts_cacheCfg)
+	la := newLockAnalysis(c, []string{"bgzf/cache"})
+	for _, fn := range c.FuncsIn("bgzf/cache") {
+		if fn.Signature.Recv() != nil || fn.Parent() != nil || fn.Blocks == nil {
+			continue
+		}
+		for _, p := range fn.Params {
+			if _, isI := p.Type().Underlying().(*types.Interface); !isI {
+				continue
+			}
+			pit := p.Type().Underlying().(*types.Interface)
+			if pit.NumMethods() == 0 {
+				continue
+			}
+			var impls []cacheImpl
+			for _, ci := range allImpls {
+				if types.Implements(types.NewPointer(ci.named), pit) {
+					impls = append(impls, ci)
+				}
+			}
+			if len(impls) == 0 {
+				continue
+			}
+			r.Instance(rule, 1)
+			key := fmt.Sprintf("%s#one-operation:%s", c.FnName(fn), "param"+fmt.Sprint(indexOfParam(fn, p)))
+			// dynamic calls on the parameter (or on a view of it)
+			views := map[ssa.Value]bool{p: true}
+			foreign := map[*ssa.BasicBlock]bool{}
+			var dispatched []*types.Func
+			why := ""
+			allInstrs(fn, func(ins ssa.Instruction) {
+				ta, ok := ins.(*ssa.TypeAssert)
+				if !ok || ta.X != p {
+					return
+				}
+				it, isI := ta.AssertedType.Underlying().(*types.Interface)
+				if !isI || !ta.CommaOk {
+					return
+				}
+				all := true
+				for _, ci := range impls {
+					if !types.Implements(types.NewPointer(ci.named), it) {
+						all = false
+					}
+				}
+				for _, ref := range *ta.Referrers() {
+					ex, ok := ref.(*ssa.Extract)
+					if !ok {
+						continue
+					}
+					if ex.Index == 0 {
+						views[ex] = true
+					}
+					if ex.Index == 1 && all {
+						for _, b := range fn.Blocks {
+							if ifi := ifOf(b); ifi != nil && ifi.Cond == ex {
+								for _, t := range fn.Blocks {
+									if dominatedByEdge(fn, b, 1, t) {
+										foreign[t] = true
+									}
+								}
+							}
+						}
+					}
+				}
+				if all {
+					for i := 0; i < it.NumMethods(); i++ {
+						dispatched = append(dispatched, it.Method(i))
+					}
+				}
+			})
+			var calls []*ssa.Call
+			allInstrs(fn, func(ins ssa.Instruction) {
+				if cl, ok := ins.(*ssa.Call); ok && cl.Call.IsInvoke() && views[cl.Call.Value] {
+					calls = append(calls, cl)
+				}
+			})
+			for _, a := range calls {
+				if foreign[a.Block()] {
+					continue
+				}
+				for _, b := range calls {
+					if foreign[b.Block()] {
+						continue
+					}
+					if _, reach := pathTo(locOf(a), is(b), nil, nil); reach {
+						why = fmt.Sprintf("%s at %s and %s at %s are two operations on the shared cache on one path – each takes and releases the cache's lock on its own, and what another goroutine does in between (a Get, a Put) is not seen: the function's effect is not that of any sequential order", a.Call.Method.Name(), c.Pos(a.Pos()), b.Call.Method.Name(), c.Pos(b.Pos()))
+					}
+				}
+			}
+			r.Check(why == "", rule, key, c.Pos(fn.Pos()), fmt.Sprintf("at most one operation on the shared cache per path (%d dynamic calls, %d on paths of foreign implementations only)", len(calls), countForeign(calls, foreign)), why)
+
+			// the methods dispatched to
+			for _, m := range dispatched {
+				for _, ci := range impls {
+					sel := c.Prog.MethodSets.MethodSet(types.NewPointer(ci.named)).Lookup(m.Pkg(), m.Name())
+					if sel == nil {
+						continue
+					}
+					mf := c.Prog.MethodValue(sel)
+					if mf == nil || mf.Blocks == nil {
+						continue
+					}
+					la.ruleSingleSection(r, rule, []*ssa.Function{mf})
+					// nothing of the receiver is touched after an explicit release
+					r.Instance(rule, 1)
+					k2 := c.FnName(mf) + "#nothing-after-release"
+					w2 := ""
+					allInstrs(mf, func(ins ssa.Instruction) {
+						cl, ok := ins.(*ssa.Call)
+						if !ok {
+							return
+						}
+						op, ok := mutexOp(&cl.Call)
+						if !ok || op.acquire {
+							return
+						}
+						if bad, reach := pathTo(locOf(cl), func(x ssa.Instruction) bool {
+							switch y := x.(type) {
+							case *ssa.FieldAddr:
+								return y.X == mf.Params[0] && !isMutexField(y)
+							case *ssa.Call:
+								return len(y.Call.Args) > 0 && y.Call.Args[0] == mf.Params[0]
+							}
+							return false
+						}, nil, nil); reach {
+							w2 = "after the release at " + c.Pos(cl.Pos()) + " the cache is used again at " + c.Pos(bad.Pos())
+						}
+					})
+					r.Check(w2 == "", rule, k2, c.Pos(mf.Pos()), "the critical section covers the whole operation", w2)
+				}
+			}
+		}
+	}
+}
+
+func indexOfParam(fn *ssa.Function, p *ssa.Parameter) int {
+	for i, q := range fn.Params {
+		if q == p {
+			return i
+		}
+	}
+	return -1
+}
+
+func countForeign(calls []*ssa.Call, foreign map[*ssa.BasicBlock]bool) int {
+	n := 0
+	for _, cl := range calls {
+		if foreign[cl.Block()] {
+			n++
+		}
+	}
+	return n
+}
+
+func isMutexField(fa *ssa.FieldAddr) bool {
+	t := fa.Type().(*types.Pointer).Elem()
+	if n, ok := t.(*types.Named); ok && n.Obj().Pkg() != nil && n.Obj().Pkg().Path() == "sync" {
+		return true
+	}
+	return false
+}
